@@ -45,7 +45,7 @@ func SystemFunction(env *Zlisp, name string, args []Sexp) (Sexp, error) {
 
 	flat, err := flattenToWordsHelper(args)
 	if err != nil {
-		return SexpNull, fmt.Errorf("flatten on '%#v' failed with error '%s'", args, err)
+		return SexpNull, fmt.Errorf("flatten on '%s' failed with error '%s'", (&SexpArray{Val: args}).SexpString(nil), err)
 	}
 	if len(flat) == 0 {
 		return SexpNull, WrongNargs
@@ -99,7 +99,7 @@ func flattenToWordsHelper(args []Sexp) ([]string, error) {
 		case *SexpPair:
 			carry, err := ListToArray(c)
 			if err != nil {
-				return []string{}, fmt.Errorf("tried to convert list of strings to array but failed with error '%s'. Input was type %T / val = '%#v'", err, c, c)
+				return []string{}, fmt.Errorf("tried to convert list of strings to array but failed with error '%s'. Input was type %T / val = '%s'", err, c, c.SexpString(nil))
 			}
 			moreWords, err := flattenToWordsHelper(carry)
 			if err != nil {
@@ -107,7 +107,7 @@ func flattenToWordsHelper(args []Sexp) ([]string, error) {
 			}
 			stringArgs = append(stringArgs, moreWords...)
 		default:
-			return []string{}, fmt.Errorf("arguments to system must be strings; instead we have %T / val = '%#v'", c, c)
+			return []string{}, fmt.Errorf("arguments to system must be strings; instead we have %T / val = '%s'", c, c.SexpString(nil))
 		}
 	} // end i over args
 	// INVAR: stringArgs has our flattened list.
